@@ -124,6 +124,17 @@ class FmtStr:
         return "FmtStr(%r,%r)" % (self.fmt, self.args)
 
 
+class SFlt:
+    """float value `t * scale` for an integer term t (only what CLCKGen needs: ns -> seconds conversions)"""
+    __slots__ = ("t", "scale")
+
+    def __init__(self, t, scale):
+        self.t, self.scale = t, scale
+
+    def __repr__(self):
+        return "SFlt(%s*%g)" % (self.t, self.scale)
+
+
 class SStr:
     """Symbolic string token (z3 String)."""
     __slots__ = ("t",)
